@@ -489,7 +489,7 @@ IsInst(v, ty, hp) == CASE ty = "int" -> IsInt(v) [] ty = "bool" -> v.k = "bool" 
 (* Interpreter state: [heap, glob, log, exc, eargs, esite, fl, depth, oom] *)
 
 St0 == [heap |-> <<>>, glob |-> ("g" :> VInt(0)), log |-> <<>>, exc |-> "", eargs |-> "", esite |-> "", fl |-> {},
-        depth |-> 0, oom |-> FALSE]
+        depth |-> 0, oom |-> FALSE, ucs |-> {}]
 Bad(st) == st.exc # "" \/ st.oom
 Raise(st, ty, site, args) == [st EXCEPT !.exc = ty, !.esite = site, !.eargs = args]
 Oom(st) == [st EXCEPT !.oom = TRUE]
@@ -526,6 +526,17 @@ LookupFrom(n, env, k, st) ==
                   IN  IF c.set THEN [ok |-> TRUE, v |-> c.v, err |-> "", fl |-> {}]
                       ELSE [ok |-> FALSE, v |-> VNone, err |-> IF k = Len(env) THEN "UnboundLocalError" ELSE "NameError", fl |-> {}]
              ELSE LookupFrom(n, env, k - 1, st)
+
+(* does name n denote a variable that iterates directly over a str literal (Cython infers Py_UCS4 for it)? *)
+RECURSIVE UcsName(_, _, _, _)
+UcsName(n, env, k, st) ==
+    IF k = 0 THEN FALSE
+    ELSE LET fr == env[k]
+         IN  IF fr.kind = "cls" THEN UcsName(n, env, k - 1, st)
+             ELSE IF n \in DOMAIN fr.vars THEN (IF fr.kind = "comp" THEN fr.lit ELSE n \in st.ucs)
+             ELSE UcsName(n, env, k - 1, st)
+UcsOperand(ns, vs, env, st) ==
+    \E k \in 1..Len(ns) : ns[k].t = "name" /\ UcsName(ns[k].s, env, Len(env), st) /\ \E m \in 1..Len(vs) : m # k /\ IsInt(vs[m])
 
 RECURSIVE StoreFrom(_, _, _, _, _)   \* -> st
 StoreFrom(n, v, env, k, st) ==
@@ -759,7 +770,7 @@ EvalComp(n, env, st) ==
         ELSE LET ii == IterInit(ri.v, ri.st)
              IN  IF Bad(ii.st) THEN R(ii.st, VNone)
                  ELSE LET st1 == Alloc(ii.st, Cell(VNone, FALSE))
-                          fr == [kind |-> "comp", vars |-> (n.p[1] :> Len(st1.heap)), cls |-> 0, globs |-> {}, bound |-> {}]
+                          fr == [kind |-> "comp", vars |-> (n.p[1] :> Len(st1.heap)), cls |-> 0, globs |-> {}, bound |-> {}, lit |-> n.a[2].t = "str"]
                           cenv == Append(env, fr)
                       IN  IF n.s = "gen"
                           THEN LET st2 == Alloc(st1, [Obj0 EXCEPT !.k = "gen", !.code = n, !.env = cenv, !.it = ii.it])
@@ -797,7 +808,8 @@ Eval(n, env, st) ==
                                      f1 == IF res.st.exc # "" /\ IsLit(n.a[1]) /\ IsLit(n.a[2]) THEN {"constop"} ELSE {}
                                      f2 == IF n.s = "<" /\ ((OneChr(n.a[1]) /\ Bint(n.a[2])) \/ (OneChr(n.a[2]) /\ Bint(n.a[1])))
                                            THEN {"chrbint"} ELSE {}
-                                 IN  R(Flag(res.st, f1 \cup f2), res.v)
+                                     f4 == IF n.s \in {"<", "==", "in"} /\ UcsOperand(n.a, r.vs, env, r.st) THEN {"ucs4"} ELSE {}
+                                 IN  R(Flag(res.st, f1 \cup f2 \cup f4), res.v)
       [] n.t = "not" -> LET r == Eval(n.a[1], env, st) IN IF Bad(r.st) THEN r ELSE R(r.st, VBool(~Truth(r.v, r.st.heap)))
       [] n.t = "neg" -> LET r == Eval(n.a[1], env, st)
                         IN  IF Bad(r.st) THEN r ELSE IF IsInt(r.v) THEN R(r.st, VInt(0 - r.v.i)) ELSE TErr(r.st, "unary")
@@ -825,7 +837,9 @@ Eval(n, env, st) ==
                            \/ (Bad(r.st) /\ failRef # failAlt)
                            \/ alt.st.glob # r.st.glob \/ alt.st.oom # r.st.oom
                            \/ (~Bad(r.st) /\ alt.vs # <<r.vs[1]>> \o SubSeq(r.vs, 3, Len(r.vs)) \o <<r.vs[2]>>)
-                r1 == IF mm /\ differs THEN [st |-> Flag(r.st, {"minmax"}), vs |-> r.vs] ELSE r
+                r2 == IF mm /\ differs THEN [st |-> Flag(r.st, {"minmax"}), vs |-> r.vs] ELSE r
+                r1 == IF mm /\ ~Bad(r.st) /\ UcsOperand(Tail(n.a), Tail(r.vs), env, r.st)
+                      THEN [st |-> Flag(r2.st, {"ucs4"}), vs |-> r2.vs] ELSE r2
             IN  IF Bad(r1.st) THEN R(r1.st, VNone) ELSE CallV(r1.vs[1], Tail(r1.vs), r1.st)
       [] n.t = "attr" -> LET r == Eval(n.a[1], env, st) IN IF Bad(r.st) THEN r ELSE GetAttr(r.v, n.s, r.st)
       [] n.t = "sub" -> LET r == EvalOps(n.a, env, st) IN IF Bad(r.st) THEN R(r.st, VNone) ELSE GetItem(r.vs[1], r.vs[2], r.st)
@@ -850,7 +864,7 @@ CallFn(addr, args, st) ==
                  pidx(x) == CHOOSE k \in 1..np : fn.ps[k] = x
                  cells == [k \in 1..Len(ls) |-> IF Has(fn.ps, ls[k]) THEN Cell(full[pidx(ls[k])], TRUE) ELSE Cell(VNone, FALSE)]
                  fr == [kind |-> "fn", vars |-> [x \in Range(ls) |-> base + (CHOOSE k \in 1..Len(ls) : ls[k] = x)], cls |-> 0,
-                        globs |-> GlobDecl(fn), bound |-> {}]
+                        globs |-> GlobDecl(fn), bound |-> {}, lit |-> FALSE]
                  env1 == Append(fn.env, fr)
                  st1 == [st EXCEPT !.heap = @ \o cells, !.depth = @ + 1]
              IN  IF Cardinality(locs) # Len(ls) THEN R(Oom(st), VNone)      \* a name the model does not know
@@ -1022,7 +1036,8 @@ Exec(n, env, st) ==
       [] n.t = "for" -> LET r == Eval(n.a[2], env, st)
                         IN  IF Bad(r.st) THEN X(r.st, "n", VNone)
                             ELSE LET ii == IterInit(r.v, r.st)
-                                 IN  IF Bad(ii.st) THEN X(ii.st, "n", VNone) ELSE ForLoop(n, env, ii.it, ii.st)
+                                     s2 == IF n.a[2].t = "str" /\ n.a[1].t = "name" THEN [ii.st EXCEPT !.ucs = @ \cup {n.a[1].s}] ELSE ii.st
+                                 IN  IF Bad(ii.st) THEN X(ii.st, "n", VNone) ELSE ForLoop(n, env, ii.it, s2)
       [] n.t = "break" -> X(st, "b", VNone)
       [] n.t = "continue" -> X(st, "c", VNone)
       [] n.t = "def" ->
@@ -1034,7 +1049,7 @@ Exec(n, env, st) ==
       [] n.t = "class" ->
             LET s1 == Alloc(st, [Obj0 EXCEPT !.k = "cls", !.nm = n.s])
                 addr == Len(s1.heap)
-                fr == [kind |-> "cls", vars |-> EmptyD, cls |-> addr, globs |-> {}, bound |-> Binds(n.a[1])]
+                fr == [kind |-> "cls", vars |-> EmptyD, cls |-> addr, globs |-> {}, bound |-> Binds(n.a[1]), lit |-> FALSE]
                 r == Exec(n.a[1], Append(env, fr), s1)
             IN  IF Bad(r.st) THEN X(r.st, "n", VNone)
                 ELSE X(StoreFrom(n.s, VRef(addr), env, Len(env), r.st), "n", VNone)
@@ -1053,7 +1068,7 @@ Obs(r) ==
     LET st == r.st
         hp == st.heap
         gr == IF "g" \in DOMAIN st.glob THEN ReprTop(st.glob["g"], hp) ELSE "<unbound>"
-        fl == {f \in {"stale", "skipcls", "clsname", "minmax", "constop", "chrbint", "emptymul"} : f \in st.fl}
+        fl == {f \in {"stale", "skipcls", "clsname", "minmax", "constop", "chrbint", "emptymul", "ucs4"} : f \in st.fl}
         base == [kind |-> "ret", ty |-> "", rp |-> "", site |-> "", log |-> st.log, g |-> gr, fl |-> fl]
     IN  IF st.oom \/ HasAt(gr) THEN [base EXCEPT !.kind = "oom"]
         ELSE IF st.exc # "" THEN [base EXCEPT !.kind = "exc", !.ty = st.exc, !.rp = st.eargs, !.site = st.esite]
